@@ -13,6 +13,7 @@ package matchrule
 // match rule written without `values` would stop the pipeline at the first event).
 
 //@ func (*Rule).Prepare
+//@   option check-nil yes
 //@   modifies r.minValueSize, r.maxValueSize, r.prepared, r.Values[:]
 //@   ensures r.prepared && 0 <= r.minValueSize && r.minValueSize <= r.maxValueSize
 //@   ensures len(r.Values) == 0 ==> r.minValueSize == 0 && r.maxValueSize == 0
@@ -28,6 +29,7 @@ package matchrule
 // the compared window is the value-long head (prefix) or tail (suffix) of the data.
 
 //@ func (*Rule).match
+//@   option check-nil yes
 //@   pure
 //@   requires r.maxValueSize >= 0
 //@   requires r.Mode == ModeContains || r.Mode == ModePrefix || r.Mode == ModeSuffix
@@ -59,6 +61,7 @@ package matchrule
 // every value, short ones included (no result is produced before the inversion).
 
 //@ func (*Rule).Match
+//@   option check-nil yes
 //@   pure
 //@   requires r.prepared
 //@   requires r.maxValueSize >= 0
@@ -81,6 +84,7 @@ package matchrule
 // matches) are the conjunction / disjunction of the whole list whatever the rest says.
 
 //@ func (*RuleSet).Match
+//@   option check-nil yes
 //@   ghost nchk int = 0
 //@   ghost allm bool = true
 //@   ghost anym bool = false
@@ -107,6 +111,7 @@ package matchrule
 // list itself are left as configured.
 
 //@ func (*RuleSet).Prepare
+//@   option check-nil yes
 //@   ghost nprep int = 0
 //@   ensures nprep == len(rs.Rules)
 //@   ensures rs.Rules == old(rs.Rules) && rs.Cond == old(rs.Cond)
